@@ -1,6 +1,7 @@
 """C05 — run-time specification changes take full effect; push/pop is an exact stack."""
 from rulelib import *
 from report import CheckError
+from fdi import FDI, Const, Agg, Sym, Ref
 from locks import guard_classes
 
 EXPLANATION = ("Decides the structural premises of the reconfiguration API: R05.1 no state change (stack push/pop, specification "
@@ -39,26 +40,47 @@ def run(R, ctx):
     handle = {m: ctx.body(rf'^logger_handle::LoggerHandle::{m}$') for m in API}
 
     # R05.1 -----------------------------------------------------------------------------------
+    # decision rows of every handle function that parses a specification string: on a row where parse() returned Err
+    # there is no mutation of the stack and no store of a specification - before or after the parse, in the body, in a
+    # combinator closure (`parse(s).map(|spec| self.set_new_spec(spec))`) or in a helper
+    PARSE = r'^log_specification::LogSpecification::parse$'
+    nparse = 0
     for b in f.fn_bodies():
-        parses = calls_named(b, r'^log_specification::LogSpecification::parse$')
-        if not parses or not b.path.startswith('logger_handle::'):
+        if b.kind == 'Closure' or not b.path.startswith('logger_handle::') or not any(re.search(PARSE, callee_name(t)) for (_, _, t) in calls_with_closures(f, b)):
             continue
-        muts = [(bb, 'stack:' + callee_name(t).split('::')[-1]) for bb, t in stack_mutations(ctx, b)]
-        muts += [(bb, 'store-via:' + c) for (bb, c, k) in cg.call_sites_reaching(b, STORE)]
-        for pbb, pt in parses:
-            edges = ok_block_of_call(b, pbb)
-            if not edges:
-                R.bad('R05.1', f"{b.path}|parse-unchecked", f"result of LogSpecification::parse is not inspected in {b.path}", where=b.loc(pbb))
+        EFF = [PARSE, VEC_MUT, r'^std::sync::RwLock::<T>::write$', r'^log::set_max_level$']
+        rows = FDI(f, effects=EFF, no_inline=[PARSE, r'max_level_with_writers$', r'util::eprint_err$'], max_steps=20000).run(b.path)
+        bad = {}
+        n_err = n_ok = 0
+        for r in rows:
+            if r.undecided:
+                raise CheckError(f"R05.1 {b.path}: UNDECIDED {r.undecided}")
+            pi = [i for i, e in enumerate(r.effects) if re.search(PARSE, e[0])]
+            if not pi:
                 continue
-            okb = [e[0] for e in edges]
-            for mbb, what in muts:
-                dom = any(C.dominates(b, o, mbb) for o in okb)
-                R.check('R05.1', f"{b.path}|{what}", dom,
-                        f"{what} is dominated by the Ok edge of parse",
-                        f"{what} at {b.loc(mbb)} is not guarded by the success of LogSpecification::parse (L{pt['line']}): a rejected "
-                        "specification string still changes the state", where=b.loc(mbb),
-                        witness=f"parse at bb{pbb}, Ok-edge blocks {okb}, effect in bb{mbb}",
-                        sample={'fn': b.path, 'effect': what, 'parse_bb': pbb, 'ok_blocks': okb, 'effect_bb': mbb})
+            res = next((v for a, v in r.cond if a == f"variant({r.effects[pi[0]][0]}#{pi[0] + 1})"), None)
+            if res == 'Ok':
+                n_ok += 1
+            if res != 'Err':
+                continue
+            n_err += 1
+            for i, e in enumerate(r.effects):
+                nm = e[0].split('::')[-1]
+                if i in pi:
+                    continue
+                if re.search(VEC_MUT, e[0]) and 'spec_stack' in r.long(e[1][0]):
+                    bad[f"stack:{nm}"] = f"the stack is changed ({nm}, L{e[2]['line']}) " + ('before' if i < pi[0] else 'after') + " a parse that fails"
+                elif nm == 'write' and 'LogSpecification' in repr(e[2]['x']) + r.long(e[1][0]) or nm == 'set_max_level':
+                    bad[f"store:{nm}"] = f"a specification is stored / the gate is set ({nm}) although parse failed"
+        if n_err < 1 or n_ok < 1:
+            raise CheckError(f"R05.1 {b.path}: parse outcome not found on the rows (ok {n_ok}, err {n_err})")
+        nparse += 1
+        R.check('R05.1', f"{b.path}|rejected-string-changes-nothing", not bad, f"{n_err} rows with a failing parse: no stack mutation, no store",
+                f"{b.path}: {next(iter(bad.values()), '')}: a rejected specification string still changes the state "
+                "(one pop would then re-activate the wrong specification)", where=b.loc(), sample={'rows': len(rows), 'err_rows': n_err})
+        R.ok('R05.1', f"{b.path}|rows", f"{len(rows)} rows", nontrivial=False)
+    if nparse < 2:
+        raise CheckError(f"only {nparse} handle functions parsing a specification found")
 
     # R05.2 -----------------------------------------------------------------------------------
     for m in ('push_temp_spec', 'parse_and_push_temp_spec'):
